@@ -3,7 +3,7 @@
    discard_hydrogens is the removal of the hydrogen lines / rows, only_atomic_coords the removal of the single items;
    and for the name functions: a path is decomposed at the last dot of its last component, case-insensitively. *)
 From Coq Require Import List Ascii String ZArith Bool Lia.
-From PV Require Import Base.Sx Base.Text Spec.Hier Model.PdbLex Model.PdbParse Model.CifLex Model.CifParse Model.Names Proofs.C15names Proofs.C15filter.
+From PV Require Import Base.Sx Base.Text Spec.Hier Model.PdbLex Model.PdbParse Model.CifLex Model.CifParse Model.Names Proofs.C15names Proofs.C15filter Proofs.C15first.
 Import ListNotations.
 
 (* 1. discard_hydrogens, PDB reader model: reading with the option is reading the numbered lines without the hydrogen lines
@@ -50,6 +50,28 @@ Proof. exact save_gz_by_extension. Qed.
 Theorem C15_save_gz_needs_gz : forall p, check_extension p "gz" = false -> save_gz_format p = None.
 Proof. exact save_gz_needs_gz. Qed.
 
+(* only_first_model in the PDB reader model: until the record that starts a second model (a MODEL record met while the model
+   being built has atoms) every line is treated as without the option; that record closes the first model exactly as without
+   the option, opens no new model and stops the reader; a stopped reader ignores the rest of the input.  So for every input the
+   reader under the option is the unrestricted reader on the lines before that record, followed by that one step. *)
+Theorem C15_pdb_first_model_same_before : forall dh ao loose s nl, starts_second_model ao loose s nl = false ->
+  step_line dh true ao loose s nl = step_line dh false ao loose s nl.
+Proof. exact pdb_first_model_same_before. Qed.
+Theorem C15_pdb_second_model_record_stops : forall dh ao loose s nl, s_stop s = false -> starts_second_model ao loose s nl = true ->
+  let t := step_line dh true ao loose s nl in
+  let u := step_line dh false ao loose s nl in
+  s_stop t = true /\ s_models t = s_models u /\ s_cur t = [] /\ s_cur u = [] /\ s_errors t = s_errors u /\ s_cur_num t = s_cur_num s.
+Proof. exact pdb_second_model_record_stops. Qed.
+Theorem C15_pdb_stopped_reader_ignores_rest : forall dh fo ao loose lines s, s_stop s = true ->
+  fold_left (step_line dh fo ao loose) lines s = s.
+Proof. exact pdb_stopped_reader_ignores_rest. Qed.
+Theorem C15_pdb_only_first_model_is_a_prefix : forall dh ao loose lines s, s_stop s = false ->
+  fold_left (step_line dh true ao loose) lines s =
+  let '(pre, hit) := before_second_model dh ao loose lines s in
+  let s' := fold_left (step_line dh false ao loose) pre s in
+  match hit with Some nl => step_line dh true ao loose s' nl | None => s' end.
+Proof. exact pdb_only_first_model_is_a_prefix. Qed.
+
 Print Assumptions C15_pdb_discard_hydrogens_is_a_filter.
 Print Assumptions C15_cif_discard_hydrogens_is_a_filter.
 Print Assumptions C15_cif_atomic_only_is_a_filter.
@@ -61,3 +83,7 @@ Print Assumptions C15_save_by_extension.
 Print Assumptions C15_save_no_extension.
 Print Assumptions C15_save_gz_by_extension.
 Print Assumptions C15_save_gz_needs_gz.
+Print Assumptions C15_pdb_first_model_same_before.
+Print Assumptions C15_pdb_second_model_record_stops.
+Print Assumptions C15_pdb_stopped_reader_ignores_rest.
+Print Assumptions C15_pdb_only_first_model_is_a_prefix.
